@@ -45,6 +45,21 @@ Fact(n) == IF n <= 1 THEN 1 ELSE n * Fact(n - 1)
 Pow2(n) == 2 ^ n
 Distinct(s) == \A i, j \in 1..Len(s) : i # j => s[i] # s[j]
 
+(* ROWS: the argument is a list whose items are flat lists (rows); A is then a sequence of integer sequences and
+   the laws above that only need equality of items read the same.  x indexes the probe row B (a flat list). *)
+RowsOut(out) == ListOfFlat(out) 
+(* vectorised arithmetic on values nested at most one level (an integer or a flat list), as folds use it *)
+VInt(v) == IsInt(v)
+VOp(op, u, v) ==
+    LET f(a, b) == IF op = "add" THEN a + b ELSE a * b
+    IN IF IsInt(u) /\ IsInt(v) THEN [i |-> f(u.i, v.i)]
+       ELSE IF IsLst(u) /\ IsInt(v) THEN [l |-> [k \in 1..Len(u.l) |-> [i |-> f(u.l[k].i, v.i)]]]
+       ELSE IF IsInt(u) /\ IsLst(v) THEN [l |-> [k \in 1..Len(v.l) |-> [i |-> f(u.i, v.l[k].i)]]]
+       ELSE [l |-> [k \in 1..MaxLen(u.l, v.l) |->
+                     [i |-> f(IF k <= Len(u.l) THEN u.l[k].i ELSE 0, IF k <= Len(v.l) THEN v.l[k].i ELSE 0)]]]
+RECURSIVE VFold(_, _, _)
+VFold(op, acc, rest) == IF rest = <<>> THEN acc ELSE VFold(op, VOp(op, acc, Head(rest)), Tail(rest))
+
 Law(name, A, B, x, out) ==     \* x: a scalar argument where the element takes one
     CASE name = "sort" -> FlatInts(out) /\ IsSorted(Ints(out)) /\ IsPerm(Ints(out), A)
       [] name = "reverse" -> FlatInts(out) /\ Ints(out) = Rev(A)
@@ -108,10 +123,30 @@ Law(name, A, B, x, out) ==     \* x: a scalar argument where the element takes o
       [] name = "allequal" -> IsInt(out) /\ (out.i # 0) = (\A i, j \in 1..Len(A) : A[i] = A[j])
       [] name = "involution" -> FlatInts(out) /\ Ints(out) = A             \* reverse(reverse(A))
       [] name = "wrap1" -> ListOfFlat(out) /\ Len(out.l) = 1 /\ Ints(out.l[1]) = A
+      \* lists of ROWS (A: sequence of integer sequences, B: a probe row)
+      [] name = "rows-uniquify" -> ListOfFlat(out) /\ Rows(out) = FirstOcc(A, {})
+      [] name = "rows-count" -> IsInt(out) /\ out.i = CountOf(A, B)
+      [] name = "rows-contains" -> IsInt(out) /\ (out.i # 0) = (CountOf(A, B) > 0)
+      [] name = "rows-allequal" -> IsInt(out) /\ (out.i # 0) = (\A i, j \in 1..Len(A) : A[i] = A[j])
+      [] name = "rows-counts" -> IsLst(out) /\ Len(out.l) = Len(FirstOcc(A, {}))
+                                 /\ \A k \in 1..Len(out.l) :
+                                        /\ IsLst(out.l[k]) /\ Len(out.l[k].l) = 2 /\ FlatInts(out.l[k].l[1]) /\ IsInt(out.l[k].l[2])
+                                        /\ Ints(out.l[k].l[1]) = FirstOcc(A, {})[k]
+                                        /\ out.l[k].l[2].i = CountOf(A, FirstOcc(A, {})[k])
+      [] name = "rows-group" -> IsLst(out) /\ (\A k \in 1..Len(out.l) : ListOfFlat(out.l[k]) /\ out.l[k].l # <<>>)
+                                /\ Concat([k \in 1..Len(out.l) |-> Rows(out.l[k])]) = A
+                                /\ (\A k \in 1..Len(out.l) : \A m \in 1..Len(out.l[k].l) : out.l[k].l[m] = out.l[k].l[1])
+                                /\ \A k \in 1..(Len(out.l) - 1) : out.l[k].l[1] # out.l[k + 1].l[1]
+      \* a list paired with ITSELF after part of it was looked at (A flat): zip, interleave
+      [] name = "zip-self" -> ListOfFlat(out) /\ Len(out.l) = Len(A) /\ \A k \in 1..Len(A) : Ints(out.l[k]) = <<A[k], A[k]>>
+      \* folds over items nested at most one level (x: the nested argument itself, tagged)
+      [] name = "sum-nested" -> x.l = <<>> \/ out = VFold("add", x.l[1], Tail(x.l))
+      [] name = "product-nested" -> x.l = <<>> \/ out = VFold("mul", x.l[1], Tail(x.l))
       [] OTHER -> FALSE
 
 LawNames == {"sort", "reverse", "uniquify", "flatten", "sum", "product", "max", "min", "cumsum", "deltas", "zip", "interleave",
              "uninterleave", "chunks", "prefixes", "sublists", "powerset", "permutations", "cartesian", "count", "contains",
              "group", "gradeup", "gradedown", "counts", "length", "head", "tail", "behead", "curtail", "merge", "any", "all",
-             "enumerate", "allequal", "involution", "wrap1"}
+             "enumerate", "allequal", "involution", "wrap1", "rows-uniquify", "rows-count", "rows-contains", "rows-allequal",
+             "rows-counts", "rows-group", "zip-self", "sum-nested", "product-nested"}
 ====
